@@ -15,8 +15,13 @@ func Shoelace(pts [][2]float64) float64 {
 		return 0.
 	}
 
-	p0 := pts[len(pts)-1]
-	for _, p1 := range pts {
+	// relative to the first point: far from the origin the products of absolute coordinates
+	// lose the whole area of a ring of small pixels in their rounding
+	o := pts[0]
+	last := pts[len(pts)-1]
+	p0 := [2]float64{last[0] - o[0], last[1] - o[1]}
+	for _, p := range pts {
+		p1 := [2]float64{p[0] - o[0], p[1] - o[1]}
 		sum += p0[1]*p1[0] - p0[0]*p1[1]
 		p0 = p1
 	}
